@@ -26,7 +26,7 @@ import (
 //	cli-split:    goalign split -i in.fa --partition part.txt -o <dir>/sp_   (Build: ranges | modulo)
 //	cli-concat:   goalign concat -i in.fa -o out.fa -l log.txt in2.fa
 //	cli-trimseq:  goalign trim seq -i in.fa -o out.fa -n X [-s]
-//	cli-extract:  goalign extract -i in.fa -o <dir> --coordinates coords.txt [--ref-seq Ref]; Sites = start,end[,start,end] (0-based, end exclusive), one line, name "x"
+//	cli-extract:  goalign extract -i in.fa -o <dir> --coordinates coords.txt [--ref-seq Ref]; Flag = minus-strand feature (4th column "-"); Sites = start,end[,start,end] (0-based, end exclusive), one line, name "x"
 
 var (
 	c04CLIDir   string // private directory of the running task
@@ -510,7 +510,11 @@ func (r *c04Run) extract(in rows) {
 		starts = append(starts, strconv.Itoa(cs.Sites[2*b]))
 		ends = append(ends, strconv.Itoa(cs.Sites[2*b+1]))
 	}
-	if !r.write("coords.txt", strings.Join(starts, ",")+"\t"+strings.Join(ends, ",")+"\tx\n") {
+	strand := ""
+	if cs.Flag {
+		strand = "\t-" // minus-strand feature: the concatenated blocks are reverse-complemented as a whole
+	}
+	if !r.write("coords.txt", strings.Join(starts, ",")+"\t"+strings.Join(ends, ",")+"\tx"+strand+"\n") {
 		return
 	}
 	os.Remove(r.path("x.fa"))
@@ -570,7 +574,16 @@ func (r *c04Run) extract(in rows) {
 		r.k.viol(r.op, "unexpected-error", err.Error())
 		return
 	}
-	if r.output("x.fa", c04Pick(in, cols)) >= 0 {
+	want := c04Pick(in, cols)
+	if cs.Flag {
+		for i := range want {
+			want[i].Seq = refRevComp(want[i].Seq)
+		}
+	}
+	if r.output("x.fa", want) >= 0 {
+		if cs.Flag {
+			r.k.c.Outcome(fmt.Sprintf("cli-extract:ok:minus-strand:%d-blocks", nb))
+		}
 		if cs.Ref != "" {
 			r.k.c.Outcome("cli-extract:ok:ref")
 		} else {
@@ -609,6 +622,9 @@ func c04RunCLIAll(maxList int) func(c *mc.Ctx, seqs []string) {
 				for e := -1; e <= L+1; e++ {
 					c04Check(c, c04Case{Op: "cli-extract", Seqs: seqs, Sites: []int{s, e}, Ref: ref})
 					if 0 <= s && s < e && e <= L {
+						c04Check(c, c04Case{Op: "cli-extract", Seqs: seqs, Sites: []int{s, e}, Ref: ref, Flag: true})
+					}
+					if 0 <= s && s < e && e <= L {
 						valid = append(valid, [2]int{s, e})
 					}
 				}
@@ -620,6 +636,7 @@ func c04RunCLIAll(maxList int) func(c *mc.Ctx, seqs []string) {
 						break
 					}
 					c04Check(c, c04Case{Op: "cli-extract", Seqs: seqs, Sites: []int{b1[0], b1[1], b2[0], b2[1]}, Ref: ref})
+					c04Check(c, c04Case{Op: "cli-extract", Seqs: seqs, Sites: []int{b1[0], b1[1], b2[0], b2[1]}, Ref: ref, Flag: true})
 				}
 			}
 		}
@@ -697,4 +714,14 @@ func c04CLITasks(thorough bool) []mc.Task {
 		}})
 	}
 	return c04InDir(ts)
+}
+
+// refRevComp: reverse complement by the IUPAC definition (the oracle of C06).
+func refRevComp(s string) string {
+	comp, _ := c06ComplementString(s)
+	b := []byte(comp)
+	for x, y := 0, len(b)-1; x < y; x, y = x+1, y-1 {
+		b[x], b[y] = b[y], b[x]
+	}
+	return string(b)
 }
